@@ -1150,10 +1150,32 @@ Proof.
     split; [rewrite upd_same; now rewrite HT|]. intro y. simpl. lia.
 Qed.
 
+(* ================================================================ lax.select_n with three cases *)
+(* select_n(which, c0, c1, c2) with an integer selector: Cast(int64), then a Where cascade  which = 2 ? c2 : (which = 1 ? c1 : c0);
+   JAX: the case numbered [which], for 0 <= which <= 2 (anything else is outside JAX's contract) *)
+Definition ke_select3 : kx :=
+  KOp3 OWhere (KOp2 OEqual (KOp1 (OCast I64) v0) (kz 2)) (KVar 3) (KOp3 OWhere (KOp2 OEqual (KOp1 (OCast I64) v0) (kz 1)) v2 v1).
+Definition jax_select3 (w c0 c1 c2 : Z) : Z := if (w =? 0)%Z then c0 else if (w =? 1)%Z then c1 else c2.
+Definition ki_select3 : kern :=
+  mkK 4 ke_select3
+      (fun xs => VZ (jax_select3 (prj SZ (nth 0 xs sv0)) (prj SZ (nth 1 xs sv0)) (prj SZ (nth 2 xs sv0)) (prj SZ (nth 3 xs sv0))))
+      (fun xs => match xs with
+                 | [VZ w; VZ _; VZ _; VZ _] => (0 <=? w)%Z && (w <=? 2)%Z
+                 | _ => false end).
+Lemma ki_select3_ok : kern_ok ki_select3.
+Proof.
+  unfold kern_ok, ki_select3, ke_select3. cbn [k_expr k_arity k_jax k_dom]. split; [exact I|]. split; [cbn; repeat split; lia|]. split.
+  - intros i Hi. destruct i as [|[|[|[|i]]]]; cbn; try tauto; lia.
+  - intros xs Hl Hd. destruct xs as [|[w| |] [|[c0| |] [|[c1| |] [|[c2| |] [|? ?]]]]]; try discriminate.
+    apply andb_prop in Hd as [H0 H2]. apply Z.leb_le in H0, H2.
+    assert (Hw : w = 0%Z \/ w = 1%Z \/ w = 2%Z) by lia. destruct Hw as [-> | [-> | ->]]; reflexivity.
+Qed.
+
 (* ================================================================ the table of a traced program *)
 (* what one equation of a real jaxpr is: primitive + static parameters (+ the operand's aval where the plugin reads it) *)
 Inductive gspec :=
 | GElem (name : string)                                  (* an elementwise exact kernel of LiftProg.exact_table *)
+| GSelect3                                               (* select_n with an integer selector and three cases *)
 | GConst (c : sval)                                      (* a literal operand *)
 | GFull (s : list nat) (c : sval)                        (* broadcast_in_dim of a literal *)
 | GReshape (new : list nat)
@@ -1175,6 +1197,7 @@ Inductive gspec :=
 Definition gk_of (s : gspec) : option gkern :=
   match s with
   | GElem nm => option_map gk_elem (exact_table nm)
+  | GSelect3 => Some (gk_elem ki_select3)
   | GConst c => Some (gk_const c)
   | GFull sh c => Some (gk_full sh c)
   | GReshape new => Some (gk_reshape new)
@@ -1206,6 +1229,7 @@ Lemma gk_of_ok s k : gk_of s = Some k -> sgkern_ok k.
 Proof.
   destruct s; simpl; intro H; try (injection H as <-).
   - destruct (exact_table name) as [k0|] eqn:E; [|discriminate]. injection H as <-. apply gk_elem_ok. now apply (exact_table_ok name).
+  - apply gk_elem_ok. apply ki_select3_ok.
   - apply gk_const_ok.
   - apply gk_full_ok.
   - apply gk_reshape_ok.
